@@ -78,6 +78,8 @@ def sweep_cases(rng, tmpdir):
     cal_bad = [
         ('cal new_alloc 0 1 99 2 2 2', ('EINVAL',), False), ('cal new_alloc 0 1 0 0 2 2', ('EINVAL',), False), ('cal new_alloc 0 1 0 3 2 2', ('EINVAL',), False),
         ('cal new_alloc 0 1 1 2 3 2', ('EINVAL',), False), ('cal new_alloc 0 1 0 2 2 -1', ('EINVAL',), False),
+        # dimensions whose term count does not fit an int
+        ('cal new_alloc 0 1 4 32768 32768 1', ('EINVAL',), False), ('cal new_alloc 0 1 5 46341 46341 1', ('EINVAL',), False), ('cal new_alloc 0 1 0 1 2147483647 1', ('EINVAL',), False),
         ('cal new_set_frequency_vector 0 %s %s' % (d2(f2), d2(f1)), ('EINVAL',), False), ('cal new_set_frequency_vector 0 %s %s' % (d2(-1.0), d2(f1)), ('EINVAL',), False),
         ('cal add 0 single_reflect %s 0 0' % M22, ('EINVAL',), False), ('cal add 0 single_reflect %s 0 3' % M22, ('EINVAL',), False), ('cal add 0 single_reflect %s 77 1' % M22, ('EINVAL',), False),
         ('cal add 0 single_reflect %s -5 1' % M22, ('EINVAL',), False), ('cal add 0 single_reflect m 2 3 3 %s 0 1' % ' '.join(z(0.1) for _ in range(18)), ('EINVAL',), False),
